@@ -63,7 +63,9 @@ def gcat_none(bad):
 # ------------------------------------------------------------------------------- sequences and variants
 
 def gcat_comp(c):
-    return {"A": "T", "C": "G", "G": "C", "T": "A"}.get(c, c)
+    # (written as a conditional chain so that the symbolic engine can evaluate it on a symbolic base;
+    #  same function as {"A": "T", "C": "G", "G": "C", "T": "A"}.get(c, c))
+    return "T" if c == "A" else ("G" if c == "C" else ("C" if c == "G" else ("A" if c == "T" else c)))
 
 
 def gcat_rc(s):
@@ -604,12 +606,38 @@ def _(self, name):
     modifies()
 
 
-@contract("aldy.gene.Gene.__getitem__", symbolic=False)
+def gcat_lookup_wf(self):
+    """object invariant established by Gene.__init__ (its clause `genome-reference` checks it natively on every generated
+    and shipped database): the look-up string holds the genome-oriented reference base of every position of the look-up
+    range, and no position outside the look-up range is aligned"""
+    return (len(self._lookup_seq) == self._lookup_range[1] - self._lookup_range[0]
+            and forall(lambda g=int: implies(self._lookup_range[0] <= g and g < self._lookup_range[1],
+                                             self._lookup_seq[g - self._lookup_range[0]] == gcat_gbase(self, g)))
+            and forall(lambda g=int: implies(g in self.chr_to_ref, self._lookup_range[0] <= g and g < self._lookup_range[1])))
+
+
+@contract("aldy.gene.Gene.__getitem__", pure=True)
 def _(self, i):
     types(i="Union[int, slice]")
-    requires(typed(i, "int") or (typed(i, "slice") and i.step is None and typed(i.start, "int") and typed(i.stop, "int") and i.start <= i.stop))
+    # (symbolic view of a slice: the record slice(start, stop); gene[a:b] is only used with both bounds and no step)
+    requires(typed(i, "int") or (typed(i, "slice") and i.start <= i.stop))
+    requires(gcat_lookup_wf(self))
     # C08 "the genome-oriented reference (gene[...])": position by position the RefSeq base aligned to the
-    # genome position (complemented on the reverse strand), N where nothing is aligned
-    ensures(result == (gcat_gbase(self, i) if typed(i, "int") else "".join(gcat_gbase(self, g) for g in range(i.start, i.stop))),
-            label="genome-reference")
+    # genome position (complemented on the reverse strand), N where nothing is aligned.
+    # The clause `result == "".join(gcat_gbase(self, g) for g in range(i.start, i.stop))` for slices is split into its
+    # length and three position ranges (before / inside / after the aligned range; outside it nothing is aligned, so
+    # the bases are a run of N); the conjunction of the parts is the clause.
+    if typed(i, "int"):
+        ensures(result == gcat_gbase(self, i), label="genome-reference")
+    else:
+        nb = max(0, min(i.stop, self._lookup_range[0]) - i.start)     # requested positions before the aligned range
+        na = max(0, i.stop - max(i.start, self._lookup_range[1]))     # requested positions after it
+        ensures(len(result) == i.stop - i.start, label="genome-reference/slice-length")
+        ensures(result[:nb] == "N" * nb, label="genome-reference/slice-before")
+        ensures(forall(lambda g=int: implies(i.start <= g and g < i.stop and self._lookup_range[0] <= g and g < self._lookup_range[1],
+                                             result[g - i.start] == gcat_gbase(self, g))),
+                label="genome-reference/slice-inside")
+        ensures(result[len(result) - na:] == "N" * na, label="genome-reference/slice-after")
+        ensures(forall(lambda g=int: implies(g < self._lookup_range[0] or g >= self._lookup_range[1], gcat_gbase(self, g) == "N")),
+                label="genome-reference/outside-unaligned")
     modifies()
